@@ -3,22 +3,22 @@ TB = "trusted: rustc, the harness driver (network/clock/application ownership), 
 
 claim("C01",
       "bounded exhaustive schedule enumeration (deviation-bounded, stateless re-execution of the real code)",
-      "every fault schedule with at most d deviations (drop, duplicate, delay 1/2 ticks, late duplicate, batch reversal, skipped drain) over a 5-tick horizon, for every script x tick-length x direction scenario, executed on the real RenetClient/RenetServer; prefix oracle after every drain and completion after a fault-free tail",
+      "M2: every fault schedule with at most d deviations (drop, duplicate, delay 1/2 ticks, late duplicate, batch reversal, skipped drain) over a 4-5 tick horizon for script x tick-length x direction scenarios (incl. bidirectional traffic, other resend times, a message larger than half the budget) on the real RenetClient/RenetServer; prefix oracle after every drain, completion after a fault-free tail. M1 (API soup): every interleaving of send/update/flush/deliver/drop/duplicate/receive calls up to depth D with <= 3 packets in flight, with a liveness probe on a clone in every state",
       TB, "DESIGN.md §5 C01")
 
 claim("C02",
       "bounded exhaustive schedule enumeration (deviation-bounded, stateless re-execution of the real code)",
-      "every fault schedule with at most d deviations (incl. the application draining after every single arrival / not at all) over a 5-tick horizon per scenario on the real endpoints; at-most-once + provenance oracle after every drain, no-head-of-line-blocking oracle (complete => yielded by the next drain), completion after a fault-free tail",
+      "M2 as C01 on unordered channels with the application draining at the end / not at all / after every single arrival; at-most-once + provenance after every drain, complete => yielded by the next drain, completion after the tail. M1 (API soup) with the same oracles and a liveness probe on a clone in every state",
       TB, "DESIGN.md §5 C02")
 
 claim("C08",
       "bounded exhaustive schedule enumeration + explicit-state DFS of the ack range list (real code, reference set model)",
-      "M2 over data and ack packet fates: a message leaves the unacknowledged set / returns its bytes only if every packet needed to rebuild it was handed to the peer; M1 over all interleavings of arrivals of every ordered subset of a small sequence universe, flushes and acks-of-acks, and continuations from prebuilt 63/64/65-range states: ack packets only cover sequence numbers that arrived",
+      "M2 over data and ack packet fates (d deviations): a message leaves the unacknowledged set / returns its bytes only if every packet needed to rebuild it was handed to the peer; M1 (ack world): all interleavings of arrivals of every ordered subset of a small sequence universe, flushes and acks-of-acks, and continuations from prebuilt 63/64/65-range states: ack packets only cover sequence numbers that arrived; M1 (API soup) with the release oracle after every call",
       TB, "DESIGN.md §5 C08")
 
 claim("C09",
       "bounded exhaustive schedule enumeration (deviation-bounded, stateless re-execution of the real code)",
-      "M2 over ample-budget, tight-budget (three gated send cycles) and 1-second-tick unreliable-fragment scenarios: accounted bytes of all four channel kinds within [0,max] after every library call, no unreliable reservation older than 3 s after update, zero residue and full budget at the quiescent end, no budget disconnect for in-budget traffic",
+      "M2 over ample-budget, exactly-filled-budget, tight-budget (gated send cycles), bandwidth-starved, unreliable-overrun and 1-second-tick unreliable-fragment scenarios: accounted bytes of all four channel kinds within [0,max] and equal to what the channel still holds after every library call, no unreliable reservation older than 3 s after update, zero residue and full budget at the quiescent end, no budget disconnect for in-budget traffic; M1 (API soup) with the same bounds and a quiescence probe on a clone in every state",
       TB, "DESIGN.md §5 C09")
 
 claim("C03",
@@ -73,12 +73,12 @@ claim("C07",
 
 claim("C05",
       "explicit-state DFS over an attacker-driven handshake alphabet on the real NetcodeServer (cloned per state)",
-      "all sequences up to depth D of requests with 7 tokens (valid, expiring, foreign key, foreign protocol, wrong host) from 2 addresses, 9 single-field corruptions, responses echoing every issued challenge under every owned key from every address, garbage responses and clock moves around expiry; every ClientConnected is checked against a reference model of acceptable requests (token validity, expiry at that moment, host list, token-to-address binding), exact id / user data, and the echoed challenge's client id",
+      "M1: all sequences up to depth D of requests with 9 tokens (valid, expiring, foreign key, foreign protocol, wrong host, sealed for another protocol id / expiry with rewritten public fields) from 2 addresses, 9 single-field corruptions, responses echoing every issued challenge under every owned key from every address, garbage responses and clock moves around expiry; a second search starts from a full one-slot server with disconnects in the alphabet; every ClientConnected is checked against a reference model of acceptable requests (token validity, expiry at that moment, host list, token-to-address binding), exact id / user data, and the echoed challenge's client id",
       TB + "; challenge recognition by decrypting server replies with the token's keys", "DESIGN.md §5 C05")
 
 claim("C10",
       "explicit-state DFS over a table-centred handshake/disconnect/time-out alphabet on the real NetcodeServer",
-      "all sequences up to depth D of requests, responses with any issued challenge, genuine disconnects and payloads, server disconnects, time-out ticks and limit changes for identities including two half-open sessions for one id and one address presenting several tokens, on servers built with 1 and 2 slots; table invariants (distinct ids, distinct addresses, bound, lookups, event matching, denials leave sessions untouched) in every state",
+      "M1: all sequences up to depth D of requests, responses with any issued challenge, genuine disconnects and payloads, server disconnects, time-out ticks and limit changes for identities including two half-open sessions for one id and one address presenting several tokens, on servers built with 1 and 2 slots, and from a non-initial state with three clients connected on 3 slots; table invariants (distinct ids, distinct addresses, bound, lookups referring to the authenticated session, event matching, denials leave sessions untouched) in every state",
       TB, "DESIGN.md §5 C10")
 
 claim("C17",
@@ -98,5 +98,5 @@ claim("C19",
 
 claim("C20",
       "bounded exhaustive schedule enumeration over real UDP transports behind a harness-owned relay (one thread, harness-owned time)",
-      "every schedule with <= d per-datagram deviations (drop, duplicate, delay, corrupt, replay) applied by an in-path relay to the real NetcodeServerTransport / NetcodeClientTransport / RenetServer / RenetClient over loopback UDP sockets, for six session scripts (no disconnect, client renet disconnect, client transport disconnect, server renet disconnect, disconnect_all, silent client); lock-step of message and handshake layers and of the event stream after every server update, both-side teardown, untouched sessions stay healthy with every reliable message delivered exactly once in order",
+      "every schedule with <= d per-datagram deviations (drop, duplicate, delay, corrupt body, corrupt prefix, replay; plus an on-path replay of the connection request at any tick) applied by an in-path relay to the real NetcodeServerTransport / NetcodeClientTransport / RenetServer / RenetClient over loopback UDP sockets, for fifteen session scripts (no disconnect; client renet / transport disconnect after and during the handshake; server renet disconnect; disconnect_all; kick + disconnect_all; silent client; client sending on a channel the server lacks; two clients with one client id; a listen-server host next to the transport): lock-step of message and handshake layers and of the event stream after every server update, no lingering message-layer disconnects, prompt propagation of disconnects, no session outliving its time-out without authentic traffic, both-side teardown, untouched sessions stay healthy with every reliable message delivered exactly once in order",
       TB + "; Linux loopback UDP synchronous delivery (guarded by the determinism gate)", "DESIGN.md §5 C20")
